@@ -14,6 +14,7 @@ import (
 	"runtime/debug"
 	"sort"
 	"strings"
+	"time"
 
 	"github.com/fullstorydev/emulators/storage/gcsemu"
 
@@ -36,6 +37,9 @@ type Emu struct {
 	Wrap      func(gcsemu.Store) gcsemu.Store
 	// Hook, when set, sees every request/response pair served by Do.
 	Hook func(req *Req, resp *Resp)
+	// Inline: serve on the calling goroutine (needed when a scheduler identifies workers by goroutine; such
+	// checks detect hangs themselves).
+	Inline bool
 }
 
 func NewEmu(store, dir string) (*Emu, error) { return NewEmuWrap(store, dir, nil) }
@@ -109,22 +113,69 @@ func (e *Emu) DoCtx(ctx context.Context, r *Req) (resp *Resp) {
 		req.Header.Set(k, v)
 	}
 	req.RequestURI = r.Path
+	if e.Inline {
+		rec := httptest.NewRecorder()
+		defer func() {
+			if p := recover(); p != nil {
+				resp.Panic = fmt.Sprintf("%v\n%s", p, debug.Stack())
+				resp.Status = rec.Code
+				resp.Header = rec.Header()
+				resp.Body = rec.Body.Bytes()
+			}
+		}()
+		e.Mux.ServeHTTP(rec, req)
+		res := rec.Result()
+		resp.Status = res.StatusCode
+		resp.Header = res.Header
+		resp.Body = rec.Body.Bytes()
+		return resp
+	}
+	// The handler runs on its own goroutine so that a request that never returns (a lock taken twice, a lost
+	// wake-up) becomes a reported failure instead of a wedged check. HangAfter is far above what any request needs.
+	cctx, cancel := context.WithCancel(ctx)
+	defer cancel()
+	req = req.WithContext(cctx)
 	rec := httptest.NewRecorder()
-	defer func() {
-		if p := recover(); p != nil {
-			resp.Panic = fmt.Sprintf("%v\n%s", p, debug.Stack())
-			resp.Status = rec.Code
-			resp.Header = rec.Header()
-			resp.Body = rec.Body.Bytes()
-		}
+	type outcome struct{ panicked string }
+	done := make(chan outcome, 1)
+	go func() {
+		var o outcome
+		defer func() {
+			if p := recover(); p != nil {
+				o.panicked = fmt.Sprintf("%v\n%s", p, debug.Stack())
+			}
+			done <- o
+		}()
+		e.Mux.ServeHTTP(rec, req)
 	}()
-	e.Mux.ServeHTTP(rec, req)
+	var o outcome
+	select {
+	case o = <-done:
+	case <-time.After(HangAfter):
+		cancel() // lets a handler that waits for a lock with the request context give up
+		select {
+		case <-done:
+		case <-time.After(5 * time.Second):
+		}
+		resp.Panic = fmt.Sprintf("HANG: %s %s did not return within %s", r.Method, r.Path, HangAfter)
+		return resp
+	}
+	if o.panicked != "" {
+		resp.Panic = o.panicked
+		resp.Status = rec.Code
+		resp.Header = rec.Header()
+		resp.Body = rec.Body.Bytes()
+		return resp
+	}
 	res := rec.Result()
 	resp.Status = res.StatusCode
 	resp.Header = res.Header
 	resp.Body = rec.Body.Bytes()
 	return resp
 }
+
+// HangAfter: a request that has not returned after this long is reported as hung.
+var HangAfter = 60 * time.Second
 
 // ---------------------------------------------------------------- URL builders
 
